@@ -37,6 +37,9 @@ CLAIMED = {
  "C10": ("model_checking", "bounded symbolic execution of linear.TransformImageColor with all pixel bytes symbolic and a symbolically keyed per-colour function, compared byte-for-byte with a reference built by the standard library's Set; uninterpreted per-colour functions for the wiring of the 8 public transforms",
          "For each explored (source type, destination type, geometry, destination origin, parallelism) configuration and all pixel contents and keys at once, the destination parent's storage equals the reference (per-pixel function at dst.Min+(p-src.Min), everything else untouched); in-place use equals the function of the original pixels; each public image transform is TransformImageColor with its own package's per-colour function.",
          "Trusted: executor (merging/if-conversion cross-validated natively), z3, image/color and image Set/At as the definition of colour-model conversion; workers run sequentially (C11 covers their independence). f ranges over an XOR-keyed family (symbolic keys), not all functions.", "DESIGN.md 5 C10"),
+ "C14": ("model_checking", "bit-precise FP queries (alpha round trip for all alphas), symbolic wiring per space with uninterpreted tables, per-alpha real-arithmetic obligations with rounding-error variables, ground table lemma",
+         "Alpha passes through decode and encode bit-identically for all 65536/256 alphas; constructors return exactly A/max and zero colour for transparent premultiplied/generic pixels; opaque constructors agree; linearised premultiplied channels stay <= alpha for every r<=a (symbolic r) for the explored alphas, given the exhaustively checked table lemma T16[r]<=r/65535.",
+         "Trusted: executor, solvers, IEEE rounding model for the real-arithmetic part; quick tier explores 1033 alphas (thorough: all). ColorFromNRGBA on a transparent pixel keeps the colour (not claimed).", "DESIGN.md 5 C14"),
  "C15": ("model_checking", "bounded symbolic execution of the three conversion helpers against the real image/draw.Draw executed symbolically; all pixel bytes symbolic; bit-vector equality per output byte",
          "For 15 source types x 3 (thorough 8) geometries x 6 parallelism values, with every byte of pixel storage symbolic, the helper's Pix/Stride/Rect equal those produced by draw.Draw(Src) for all pixel contents at once; identity for same-type input; input unmodified.",
          "Trusted: executor incl. function-level merging and if-conversion (cross-validated natively on sampled models), z3, image/draw of Go 1.23.5 as the oracle; worker goroutines executed sequentially.", "DESIGN.md 5 C15"),
